@@ -169,5 +169,39 @@ pub fn run() {
 		let bytes = Arc::new(record(&abs).doc.assemble());
 		eval_case("skip", o_skip, &bytes, &p, || abs.describe(), local);
 	});
+	// the distance the skip path jumps (or copies through the hasher) around block sizes: filler events of
+	// an unknown code make the stretch between Game Start and Game End every length B-8 ..= B+8 for
+	// B = 256 .. 131072 (powers of two) and 3 x 4096
+	let mut aligned: Vec<(Vec<u8>, String, bool)> = vec![];
+	for v in [(0u8, 1u8), (3, 16)] {
+		let a = base_replay(v, vec![pc(0, false)], 1);
+		let doc = record(&a).doc;
+		let ge = doc.events.iter().position(|e| e.code == 0x39).unwrap();
+		let base_span: usize = doc.events[1..ge].iter().map(|e| 1 + e.payload.len()).sum();
+		for b in [256usize, 512, 1024, 2048, 4096, 8192, 12288, 16384, 32768, 65536, 131072] {
+			for d in -8i64..=8 {
+				let target = (b as i64 + d) as usize;
+				if target < base_span + 2 {
+					continue;
+				}
+				let f = target - base_span;
+				let sizes: Vec<(u8, usize)> = if f <= 65536 { vec![(0x7E, f - 1)] } else if f - 65536 >= 2 { vec![(0x7E, 65535), (0x7D, f - 65536 - 1)] } else { continue };
+				let mut d2 = doc.clone();
+				for (code, size) in sizes.iter().rev() {
+					d2.table.push((*code, *size as u16));
+					d2.events.insert(ge, Ev { code: *code, payload: (0..*size).map(|i| fill_byte(Fill::B, 0x61, i)).collect(), tag: Tag::Unknown });
+				}
+				for hash in [true, false] {
+					aligned.push((d2.assemble(), format!("v{}.{} with {} bytes between Game Start and Game End", v.0, v.1, target), hash));
+				}
+			}
+		}
+	}
+	cx.note("aligned_span_cases", json!(aligned.len()));
+	par_each(aligned.into_iter(), |(bytes, label, hash), local| {
+		let bytes = Arc::new(bytes);
+		let p = P { hash, class: "aligned-span", ..Default::default() };
+		eval_case("skip", o_skip, &bytes, &p, || label, local);
+	});
 	finish(cx);
 }
